@@ -95,6 +95,7 @@ fn main() {
             "C04" => vharness::checks::c04::run(tier),
             "C05" => vharness::checks::c05::run(tier),
             "C06" => vharness::checks::c06::run(tier),
+            "C07" => vharness::checks::c07::run(tier),
             other => {
                 eprintln!("unknown check {other}");
                 2
